@@ -18,7 +18,7 @@ func init() {
 			"D2 exhaustive dispatch — every feature flag has an arm in the block loop or in BOTH fallback decoders, every mapping flag that has a Go mapping type has an arm in mapping.Decode constructing that type (quadratic/quartic: reasoned gap, no implementation exists), every bin layout has an arm in the generic bin decoder and the paginated decoder handles or delegates all of them, every flag type has an arm in the block loop. "+
 			"D3 per-flag payload agreement — for every block kind, the primitive-codec grammar of every writer and of every reader arm (including the plain decoder's skip arms, where skipping n bytes is the element fixed(n)) equals the documented grammar: N:uvarint (Δ:varint c:varfloat)^N, N:uvarint (Δ:varint)^N, N:uvarint i0:varint d:varint (c:varfloat)^N, varfloat for zero-count and count, float64LE for sum/min/max, float64LE×2 for mappings. "+
 			"D4 order/repetition independence = C06-D3 (additive, block-local decoding). "+
-			"SHARED (obligations of other properties that decide clauses this property states too, re-evaluated here under their home rule ids): C08-D4 (item loops of the bin decoders are controlled by the announced item count itself, so every valid stream — zero strides included — is consumed exactly). C19-D2/D3 (Equals of the mappings: a repeated or already known mapping block must be accepted, so Equals holds for a mapping and itself — symmetric tolerance table over absolute values). C06-D1 side pairing of the decoder (each store arm of the block loop decodes into the store of its side on every path — blocks may arrive in any order, also before the mapping block). C06-D2 (delta / stride discipline of every bin writer and reader: acc = φ(0, acc + Δ) for every item read, counts or not). C06-D3 (every block handler only adds to the state: repeated blocks and repeated indexes sum up, as documented). C04-D1/D2/D5/D6/D9 and C05-D8 (the add side of every store: a decoded bin is counted at its index). C04-D3 sparse entries (a bin block may carry bins of weight zero, which are no content: a weight from outside enters the sparse store's map only where it is known not to be zero). C06-D6 (the decoding constructors of both variants build the sketch with the mapping and stores they are given). C10-D1/D5 (statistics blocks: each written from the accumulator of its flag in the documented width and read back with the decoder of that width; the exact decoder refuses a stream only for missing statistics blocks). C19-D1 binary part (the index-mapping block of each kind: its flag, float64LE gamma field, float64LE offset field; the reader arm of that flag constructs the same kind from the two values in reading order). "+
+			"SHARED (obligations of other properties that decide clauses this property states too, re-evaluated here under their home rule ids): C08-D4 (item loops of the bin decoders are controlled by the announced item count itself, so every valid stream — zero strides included — is consumed exactly). C19-D2/D3 (Equals of the mappings: a repeated or already known mapping block must be accepted, so Equals holds for a mapping and itself — symmetric tolerance table over absolute values). C06-D1 side pairing of the decoder (each store arm of the block loop decodes into the store of its side on every path — blocks may arrive in any order, also before the mapping block). C06-D2 (delta / stride discipline of every bin writer and reader: acc = φ(0, acc + Δ) for every item read, counts or not). C06-D3 (every block handler only adds to the state: repeated blocks and repeated indexes sum up, as documented). C04-D1/D2/D5/D6/D9 and C05-D8 (the add side of every store: a decoded bin is counted at its index). C04-D3 sparse entries (a bin block may carry bins of weight zero, which are no content: a weight from outside enters the sparse store's map only where it is known not to be zero). C08-D2 (skip arms of the plain decoder: exactly the block is consumed whenever its bytes are there, end of stream included). C06-D6 (the decoding constructors of both variants build the sketch with the mapping and stores they are given). C10-D1/D5 (statistics blocks: each written from the accumulator of its flag in the documented width and read back with the decoder of that width; the exact decoder refuses a stream only for missing statistics blocks). C19-D1 binary part (the index-mapping block of each kind: its flag, float64LE gamma field, float64LE offset field; the reader arm of that flag constructs the same kind from the two values in reading order). "+
 			"NOT DECIDED: that an arbitrary grammar-generated stream decodes to the documented content (value semantics of the primitives), stride 0 / negative strides inside the paginated contiguous decoder.",
 		"one obligation per flag variable, per (type,subflag) pair, per dispatch × defined constant, per writer block and reader arm",
 		true, runC07)
@@ -100,6 +100,9 @@ func runC07(c *Ctx) {
 	// a stream without mapping block decodes with the mapping the caller supplies: the decoding constructors of both
 	// variants hand it to the sketch they build
 	c.shared(func() { c06DecoderCtors(c, a, "C06-D6") }, func(o *Obligation) bool { return true })
+	// the plain decoder skips the statistics blocks of an exact encoding: each skip arm consumes exactly its block when
+	// the bytes are there — also when the block ends the stream
+	c.shared(func() { c08EOFBeforeConsume(c, a) }, func(o *Obligation) bool { return true })
 	// the statistics blocks: each written from the accumulator of its flag in the documented width, each read back with
 	// the decoder of that width; the exact-summary decoder refuses a stream only for missing statistics blocks
 	c.shared(func() { c10Decode(c, a); c10EncodeGuards(c, a) }, func(o *Obligation) bool { return true })
